@@ -332,6 +332,7 @@ type world struct {
 	seen     map[string]bool
 	gid      int
 	sawH     bool
+	stop     bool // a liveness-type violation was positively established: every later connection would cost a deadline
 }
 
 func (w *world) dialAsync(x *cconn) chan error {
@@ -597,6 +598,9 @@ func (w *world) run(bi int, b beh, out *vio.Out) {
 			w.judge(&r, x, data, rerr)
 			x.tc.Close()
 		}
+		if r.Blocked || r.Closed == "no" {
+			w.stop = true
+		}
 		out.Emit(r)
 	}
 }
@@ -814,15 +818,38 @@ func TestX05(t *testing.T) {
 	}
 	t0 := time.Now()
 	for bi, b := range cases {
+		if w.stop {
+			break
+		}
 		w.run(bi, b, out)
 	}
 	rounds, m := 40, 6
 	if vio.Thorough() {
 		rounds = 400
 	}
-	for r := 0; r < rounds; r++ {
+	for r := 0; r < rounds && !w.stop; r++ {
 		w.burst(len(cases)+r, m, out)
 	}
-	out.Emit(map[string]any{"ev": "meta", "bursts": rounds, "rotation": pv.canRot, "handler_visible": w.sawH, "behaviours": len(cases)})
+	// observation (not judged): a client that offers no ALPN protocol at all
+	noalpn := "unobserved"
+	if w.stop {
+	} else if c, err := tls.DialWithDialer(&net.Dialer{Timeout: w.d}, "tcp", net.JoinHostPort(srv, strconv.Itoa(ntske.ServerPortIP)),
+		&tls.Config{InsecureSkipVerify: true, MinVersion: tls.VersionTLS13}); err != nil {
+		noalpn = "handshake refused"
+	} else {
+		c.SetDeadline(time.Now().Add(w.d))
+		c.Write(wire(append(words("np", false), append(words("a15", false), words("eom", false)...)...)))
+		if data, err := io.ReadAll(c); err == nil {
+			if recs, complete, _ := parseMsg(data); complete && recs[len(recs)-1].typ&^crit == ntske.RecEom {
+				noalpn = fmt.Sprintf("success response with %d records (negotiated protocol %q)", len(recs), c.ConnectionState().NegotiatedProtocol)
+			} else if complete {
+				noalpn = "error message"
+			} else {
+				noalpn = fmt.Sprintf("%d bytes", len(data))
+			}
+		}
+		c.Close()
+	}
+	out.Emit(map[string]any{"ev": "meta", "bursts": rounds, "noalpn": noalpn, "stopped": w.stop, "rotation": pv.canRot, "handler_visible": w.sawH, "behaviours": len(cases)})
 	fmt.Printf("X05 behaviours=%d records=%d rotation=%v handler_visible=%v wall=%v\n", len(cases), out.N, pv.canRot, w.sawH, time.Since(t0).Round(time.Millisecond))
 }
